@@ -206,8 +206,9 @@ def run_sync(gen):
 
 
 class Interp:
-    def __init__(self, ctx, stubs=None, loop_specs=None, inline_filter=None):
+    def __init__(self, ctx, stubs=None, loop_specs=None, inline_filter=None, force=()):
         self.ctx = ctx
+        self.force = set(force)  # repo functions interpreted even with concrete arguments (their callees are stubbed)
         self.stubs = stubs or {}
         self.loop_specs = loop_specs or {}
         from . import models
@@ -371,7 +372,7 @@ class Interp:
                 return self.native(fn, args, kwargs)
             if is_repo_function(fn) and not is_generated_dataclass_method(fn):
                 is_gen = bool(fn.__code__.co_flags & inspect.CO_GENERATOR)
-                if is_gen or symbolic_args or self.models.force_interpret(fn):
+                if is_gen or symbolic_args or fn in self.force:
                     return (yield from self.call_repo_function(fn, args, kwargs, self._defcls_of(fn, args)))
                 return self.native(fn, args, kwargs)
             if is_generated_dataclass_method(fn):
